@@ -114,7 +114,7 @@ def baseOf (e : Env) (t : Nat) : Int :=
   | none => e.start
 
 /-- the slot of the dependency bound, from the dates the state gives the predecessors -/
-def boundSlot (e : Env) (σ : St) (t : Nat) : Int := (cursorOf e (earliestStart σ (e.taskD t).allDeps (baseOf e t))).1
+def boundSlot (e : Env) (σ : St) (t : Nat) : Int := (cursorOf e (earliestStart e σ (e.taskD t).allDeps (baseOf e t))).1
 
 def NoIdleAt (e : Env) (σ : St) (t r : Nat) : Prop :=
   ∀ L, usageOf (σ.led.get r L).usage t ≠ none →
@@ -134,9 +134,9 @@ structure IdleInv (e : Env) (σ : St) (tasks : List Nat) : Prop where
     (∀ r i, usageOf (σ.led.get r i).usage t = none) ∧ (EffLeaf e t → (σ.tst t).start = (e.taskD t).start)
   ok : DoneIdle e σ
 
-theorem earliestStart_congr (σ σ' : St) (deps : List Dep) (base : Int)
+theorem earliestStart_congr (e : Env) (σ σ' : St) (deps : List Dep) (base : Int)
     (h : ∀ dp ∈ deps, (σ'.tst dp.target).start = (σ.tst dp.target).start ∧ (σ'.tst dp.target).stop = (σ.tst dp.target).stop) :
-    earliestStart σ' deps base = earliestStart σ deps base := by
+    earliestStart e σ' deps base = earliestStart e σ deps base := by
   unfold earliestStart
   induction deps generalizing base with
   | nil => rfl
@@ -149,7 +149,7 @@ theorem earliestStart_congr (σ σ' : St) (deps : List Dep) (base : Int)
 theorem boundSlot_congr (e : Env) (σ σ' : St) (t : Nat)
     (h : ∀ dp ∈ (e.taskD t).allDeps, (σ'.tst dp.target).start = (σ.tst dp.target).start ∧ (σ'.tst dp.target).stop = (σ.tst dp.target).stop) :
     boundSlot e σ' t = boundSlot e σ t := by
-  unfold boundSlot; rw [earliestStart_congr σ σ' _ _ h]
+  unfold boundSlot; rw [earliestStart_congr e σ σ' _ _ h]
 
 theorem idleInv_step (e : Env) (wf : WF e) (σ : St) (tasks : List Nat) (t0 : Nat) (h : IdleInv e σ tasks)
     (hmem : t0 ∈ tasks) (hready : ready e σ t0 = true) :
